@@ -316,12 +316,7 @@ func (f *MM) horner() []hornerPoint {
 // solveTv2 returns u with Z^2 u^4 + Z u^2 = w for a structured w, or nil.
 func (f *MM) solveTv2() *big.Int {
 	for try := 0; try < 40; try++ {
-		var wm *big.Int
-		if f.rng.Intn(2) == 0 {
-			wm = f.limbStruct()
-		} else {
-			wm, _ = f.window()
-		}
+		wm, _ := f.resultTarget(bigP)
 		w := mulmod(new(big.Int).Mod(wm, bigP), rInvP, bigP) // the value whose Montgomery form is wm
 		// v = (-1 +- sqrt(1 + 4w)) / (2Z)
 		d := new(big.Int).Lsh(w, 2)
